@@ -312,7 +312,10 @@ func (e *explorer) donate(trail []*Decision, frozen int) {
 		case 'b', 'v':
 			nd := cloneDecision(d)
 			nd.Taken = !d.Taken
-			nd.Unchecked = true
+			nd.Unchecked = !d.AltChecked
+			if d.AltChecked {
+				nd.M = d.AltM
+			}
 			mk(nd)
 		case 'c':
 			for c := d.Choice + 1; c < d.N; c++ {
@@ -362,13 +365,16 @@ func (e *explorer) worker() {
 			case 'b', 'v':
 				d.Taken = !d.Taken
 				d.AltOpen = false
-				d.Unchecked = true
+				d.Unchecked = !d.AltChecked
 			case 'c':
 				d.Choice++
 				d.AltOpen = d.Choice < d.N-1
 			}
 			ex.trail = ex.trail[:i+1]
 			ex.startModel = d.M
+			if d.Kind != 'c' && d.AltChecked {
+				ex.startModel = d.AltM
+			}
 			e.donate(ex.trail, frozen)
 		}
 		if e.shouldStop() {
@@ -422,10 +428,16 @@ func (e *explorer) record(ex *Exec, ps PathStat) {
 	r := e.res
 	if ps.Kind == "infeasible" {
 		r.Pruned++
+		if e.w.verbose && r.Pruned%200 == 0 {
+			fmt.Fprintf(os.Stderr, "  .. %s: %d paths %v pruned=%d steps=%d trail=%d\n", r.Name, r.Paths, r.Kinds, r.Pruned, ps.Steps, len(ex.trail))
+		}
 		return
 	}
 	r.Paths++
 	r.Kinds[ps.Kind]++
+	if e.w.verbose && r.Paths%200 == 0 {
+		fmt.Fprintf(os.Stderr, "  .. %s: %d paths %v pruned=%d\n", r.Name, r.Paths, r.Kinds, r.Pruned)
+	}
 	r.Asserts += ps.Asserts
 	r.AssertSym += ps.AssertSym
 	if ps.Sym && ps.Asserts > 0 {
